@@ -198,6 +198,18 @@ MkObject(members) == VObj(OwnKeyOrder(Collapse(members, <<>>)))
 
 LitValue(u) == IF u = WTrue THEN VBool(TRUE) ELSE IF u = WFalse THEN VBool(FALSE) ELSE VNull
 
+(* InternalizeJSONProperty (25.5.1.1): the reviver is called bottom-up - for an array the elements in index  *)
+(* order, for an object the members in own-key order, then the holder's property itself; the root under the  *)
+(* name "".  ReviverCalls(v) is the sequence of names an (identity) reviver is called with.                  *)
+RECURSIVE IntDigits(_)
+IntDigits(n) == IF n < 10 THEN <<48 + n>> ELSE IntDigits(n \div 10) \o <<48 + (n % 10)>>
+RECURSIVE ReviverWalk(_, _)
+ReviverWalk(name, v) ==
+  (IF v.t = "arr" THEN FlattenSeq([i \in 1..Len(v.items) |-> ReviverWalk(IntDigits(i - 1), v.items[i])])
+   ELSE IF v.t = "obj" THEN FlattenSeq([i \in 1..Len(v.props) |-> ReviverWalk(v.props[i].k, v.props[i].v)])
+   ELSE <<>>) \o <<name>>
+ReviverCalls(v) == ReviverWalk(<<>>, v)
+
 (***************************************************************************)
 (* The recogniser                                                          *)
 (***************************************************************************)
